@@ -222,8 +222,21 @@ def simulate(tla: Path, cfg: Path, tmp: Path, *, num=100, depth=12, seed=0, **kw
     return res, behs
 
 
+def printed_n(out: str, marker: str, n: int):
+    """The n values V1..Vn printed by PrintT(<<"marker", V1, ..., Vn>>)."""
+    v = _printed_tuple(out, marker)
+    if v is None:
+        raise TlcError(f"no printed value {marker}:\n" + out[-2000:])
+    return v[1:1 + n]
+
+
 def printed(out: str, marker: str):
     """Value V printed by `PrintT(<<"marker", V>>)` (TLC pretty-prints over several lines): bracket matching."""
+    v = _printed_tuple(out, marker)
+    return None if v is None else v[1]
+
+
+def _printed_tuple(out: str, marker: str):
     i = out.find(f'"{marker}"')
     if i < 0:
         return None
@@ -246,7 +259,7 @@ def printed(out: str, marker: str):
             depth -= 1
             j += 1
             if depth == 0:
-                return tlaval.parse(out[start:j + 1])[1]
+                return tlaval.parse(out[start:j + 1])
         j += 1
     raise TlcError(f"unbalanced printed value for {marker}")
 
